@@ -17,6 +17,7 @@ package l4wireguard
 import (
 	"bytes"
 	"encoding/binary"
+	"errors"
 	"io"
 	"strconv"
 
@@ -133,6 +134,9 @@ type MessageInitiation struct {
 }
 
 func (msg *MessageInitiation) FromBytes(src []byte) error {
+	if len(src) != MessageInitiationBytesTotal {
+		return ErrInvalidSourceLength
+	}
 	buf := bytes.NewBuffer(src)
 	if err := binary.Read(buf, MessageBytesOrder, &msg.Type); err != nil {
 		return err
@@ -233,6 +237,9 @@ var (
 
 var (
 	MessageBytesOrder = binary.LittleEndian
+
+	// ErrInvalidSourceLength is returned when a fixed-size message is parsed from a byte slice of another length.
+	ErrInvalidSourceLength = errors.New("invalid source length")
 )
 
 // Refs:
